@@ -1,22 +1,24 @@
-(** Correspondence for C05: the [pint] binary's exit status vs [Model.Severity] on the same flags and on
-    the severities pint itself wrote to its --json report. *)
+(** Correspondence for C05: the [pint] binary's exit status (and whether its --json report exists / is complete) vs
+    [Model.ExitFlow] (the whole actionLint / actionCI control flow, flag defaults from the generated table) on the same
+    command line, the same injected fault, and the severities pint itself wrote to its --json report. *)
 From Coq Require Import List String ZArith NArith Bool.
-From PintV Require Import Common.Bytes Gen.Tables Model.Severity.
+From PintV Require Import Common.Bytes Gen.Tables Gen.C05 Model.Severity Model.ExitFlow.
 Import ListNotations.
 Open Scope string_scope.
 
 Record case := {
   c_id : N;
   c_ci : bool;                 (* pint ci instead of pint lint *)
-  c_fail_on : option string;   (* --fail-on value; None = flag omitted (default) *)
+  c_fail_on : option string;   (* --fail-on value; None = flag omitted (default of the generated table) *)
   c_min_sev : option string;   (* --min-severity (lint only) *)
   c_sevs : list string;        (* "severity" fields of the JSON report, in order *)
-  c_json_present : bool;       (* the JSON report was written *)
-  c_exit_nonzero : bool        (* observed *)
+  c_json_present : bool;       (* the JSON report was written and parses *)
+  c_exit_nonzero : bool;       (* observed *)
+  c_fault : string;            (* injected infrastructure fault ("" = none): which stage of the action must fail *)
+  c_branch : string;           (* pint ci: current branch *)
+  c_base : string;             (* pint ci: --base-branch *)
+  c_json_exists : bool         (* the --json file exists afterwards (possibly empty) *)
 }.
-
-Definition default_fail_on := "bug".
-Definition default_min_sev := "warning".
 
 Fixpoint all_some {A} (l : list (option A)) : option (list A) :=
   match l with
@@ -25,35 +27,56 @@ Fixpoint all_some {A} (l : list (option A)) : option (list A) :=
   | None :: _ => None
   end.
 
-Definition flag (o : option string) (d : string) := match o with Some s => s | None => d end.
+Definition is (c : case) (f : string) : bool := String.eqb (c_fault c) f.
 
-(** [None] = the case itself is malformed (JSON has a severity name the tables do not know). *)
-Definition model_exit (c : case) : option bool :=
-  let f := flag (c_fail_on c) default_fail_on in
-  let m := flag (c_min_sev c) default_min_sev in
-  if c_json_present c then
-    match all_some (map severity_of_string (c_sevs c)) with
-    | Some sevs => Some (if c_ci c then run_ci f sevs else run_lint f m sevs)
-    | None => None
-    end
-  else
-    (* no report written: only legitimate when a flag value was rejected *)
-    match parse_severity f, (if c_ci c then Some 0%Z else parse_severity m) with
-    | Some _, Some _ => None
-    | _, _ => Some true
-    end.
+Definition setup_of (c : case) : setup_in :=
+  {| su_log_level_ok := negb (is c "log-level");
+     su_workers := if is c "workers" then 0%Z else 10%Z;
+     su_config_ok := negb (is c "bad-config" || is c "missing-config") |}.
 
-Definition check (c : case) : option string :=
-  match model_exit c with
-  | None => Some "malformed-or-missing-json"
-  | Some b => if Bool.eqb b (c_exit_nonzero c) then None else Some "exit-status"
+Definition lint_of (c : case) : lint_in :=
+  {| li_setup := setup_of c;
+     li_paths := if is c "no-paths" then 0%nat else 1%nat;
+     li_find_ok := negb (is c "missing-path");
+     li_generate_ok := true; li_check_ok := true;
+     li_min_sev := c_min_sev c; li_fail_on := c_fail_on c;
+     li_outputs_ok := negb (is c "json-unwritable" || is c "checkstyle-unwritable");
+     li_submit_ok := true |}.
+
+Definition ci_of (c : case) : ci_in :=
+  {| ci_setup := setup_of c;
+     ci_current_branch := if is c "not-a-repo" then None else Some (c_branch c);
+     ci_base_branch := c_base c;
+     ci_find_ok := true;
+     ci_git_find_ok := negb (is c "bad-base");
+     ci_generate_ok := true; ci_check_ok := true;
+     ci_outputs_ok := negb (is c "json-unwritable");
+     ci_reporters_ok := negb (is c "github-no-token");
+     ci_fail_on := c_fail_on c;
+     ci_submit_ok := true |}.
+
+Definition known_faults : list string :=
+  [""; "no-paths"; "missing-path"; "bad-config"; "missing-config"; "workers"; "log-level"; "json-unwritable";
+   "checkstyle-unwritable"; "not-a-repo"; "bad-base"; "github-no-token"].
+
+Definition model_outcome (c : case) : option outcome :=
+  if negb (mem_str (c_fault c) known_faults) then None else
+  match all_some (map severity_of_string (c_sevs c)) with
+  | Some sevs => Some (if c_ci c then action_ci (ci_of c) sevs else action_lint (lint_of c) sevs)
+  | None => None
+  end.
+
+Definition check (c : case) : list string :=
+  match model_outcome c with
+  | None => ["malformed-case"]
+  | Some o =>
+      (if Bool.eqb (negb (Z.eqb (o_code o) 0)) (c_exit_nonzero c) then [] else ["exit-status"]) ++
+      (if Bool.eqb (o_submitted o) (c_json_present c) then [] else ["report-completeness"]) ++
+      (if Bool.eqb (o_outputs_created o) (c_json_exists c) then [] else ["report-file-creation"])
   end.
 
 Fixpoint mismatches (cs : list case) : list (N * string) :=
   match cs with
   | [] => []
-  | c :: r => match check c with
-              | Some t => (c_id c, t) :: mismatches r
-              | None => mismatches r
-              end
+  | c :: r => map (fun t => (c_id c, t)) (check c) ++ mismatches r
   end.
